@@ -287,6 +287,17 @@ def stepLine (_ : Unit) (op obs : String) : Unit × String :=
       ((), s!"wa=ok wb=ok wcodes={codesStr codes} encA={obsField obs "encA"} encB={obsField obs "encB"} psig={obsField obs "psig"}" ++
            readerHalf "ok" (a ++ b) (a ++ b) codes)
     | _, _, _ => ((), "bad-op")
+  | "mmn" :: fl :: _ :: mode :: rest =>
+    -- members written separately with their own options: decoded = concatenation of the inputs
+    let rec pay : List String → Option (List Nat)
+      | _ :: p :: r => do pure ((← parsePayload p) ++ (← pay r))
+      | _ => some []
+    match pay rest, (fl.splitOn ",").mapM writeCode with
+    | some all, some codes =>
+      if mode == "all" ∧ obsField obs "psig" == "1" then ((), obs) else
+      ((), s!"w=ok wcodes={codesStr codes} encs={obsField obs "encs"} psig={obsField obs "psig"}" ++
+           readerHalf "ok" all all codes)
+    | _, _ => ((), "bad-op")
   | ["tr", fl, opts, pl, cut, rb] =>
     let stack := fl.splitOn ","
     match parsePayload pl, rb.toNat? with
